@@ -130,9 +130,15 @@ func VerifH_C01_ws_batch() {
 	}
 	var want []exp
 	var sends []func(Socket)
+	// one pre-encoded frame shared by several sends (the option's purpose: encode once,
+	// send to many): every transmission must carry the frame
+	shared := &packet.Options{WsPreEncodedFrame: types.NewStringBufferString("4sh")}
 	for i := 0; i < n; i++ {
 		body := string(rune('a'+i)) + "z"
-		switch verif.Choose(3) {
+		switch verif.Choose(4) {
+		case 3:
+			want = append(want, exp{ws.TextMessage, "4sh"})
+			sends = append(sends, func(s Socket) { s.Send(types.NewStringBufferString("sh"), shared, nil) })
 		case 0:
 			want = append(want, exp{ws.TextMessage, "4" + body})
 			sends = append(sends, func(s Socket) { s.Send(types.NewStringBufferString(body), nil, nil) })
